@@ -438,11 +438,11 @@ def run_req(run, case, agg):
 
 # --------------------------------------------------------------------------------------------- CMDResponse
 
-def build_resp():
+def build_resp(vin_width=32):
     import py4hw
     from py4hw.emulation.HILWrapperUART import CMDResponse
     hw = py4hw.HWSystem()
-    s = dict(vin=hw.wire('resp_v', 32), size=hw.wire('resp_size', 8), start=hw.wire('start_resp'), ready=hw.wire('ser_ready'),
+    s = dict(vin=hw.wire('resp_v', vin_width), size=hw.wire('resp_size', 8), start=hw.wire('start_resp'), ready=hw.wire('ser_ready'),
              valid=hw.wire('ser_valid'), v=hw.wire('ser_v', 8))
     with muted():
         CMDResponse(hw, 'cmd_resp', s['vin'], s['size'], s['start'], s['ready'], s['valid'], s['v'])
@@ -469,6 +469,10 @@ def ready_bits(mode, G, rnd, n):
     return out[:n]
 
 
+def _int(v):
+    return int(v, 16) if isinstance(v, str) else v      # replay files carry very wide values as hex strings
+
+
 def resp_bound(count, G):
     return (count + 2) * 2 * (G + 1) + 4
 
@@ -481,13 +485,14 @@ def simulate_resp(case):
     items = case['items']
     G = case['maxgap']
     rb = case['ready_bits']
-    hw, sim, s = build_resp()
+    hw, sim, s = build_resp(case.get('vin_width', 32))
     tr = dict(start=[], ready=[], valid=[], v=[], restarts=[])
     starts = []
     t = 0
     with muted():
         for item in items:
             value, count, idle = item[:3]
+            value = _int(value)
             hold = item[3] if len(item) > 3 and item[3] else ['held']
             for _ in range(idle):           # idle cycles with the previous value/size still on the wires
                 s['start'].put(0)
@@ -509,7 +514,7 @@ def simulate_resp(case):
                     s['size'].put(1 + (t * 7 + 3) % 32)
                 elif hold[0] == 'restart' and t == t0 + hold[1]:   # another request while this response is in progress
                     s['start'].put(1)
-                    s['vin'].put(hold[2])
+                    s['vin'].put(_int(hold[2]))
                     s['size'].put(hold[3])
                     tr['restarts'].append(t)
                 s['ready'].put(rb[t] if t < len(rb) else 1)
@@ -571,6 +576,7 @@ def judge_resp(tr, case):
         return findings, obs
     for r, item in enumerate(items):
         value, count, idle = item[:3]
+        value = _int(value)
         if r >= len(starts):
             break
         a = starts[r]
@@ -617,6 +623,7 @@ def expand_resp(k, seed, tier):
     if mode == 'always':
         G = 0
     holdmode = ['held', 'pulse_only', 'restart', 'mixed'][(k // 3) % 4]
+    vin_width = [32, 32, 64, 128, 32, 96, 68][k % 7]      # the block takes any vin width; sizes up to the full width are requested
     items = []
     total = 0
     for _ in range(8):
@@ -627,6 +634,11 @@ def expand_resp(k, seed, tier):
             if rnd.random() < 0.25:                     # bits above the requested digits: only the low digits are sent
                 value |= rnd.getrandbits(32) << (4 * count)
                 value &= 0xFFFFFFFF
+        elif vin_width > 32 and cls < 0.95:             # wide values: as many digits as the wire holds, all of them significant
+            count = rnd.randrange(9, vin_width // 4 + 1)
+            value = rnd.getrandbits(4 * count) | (rnd.randrange(1, 16) << (4 * count - 4))
+            if rnd.random() < 0.2:
+                value = int(''.join(rnd.choice('0F9A') for _ in range(count)), 16)
         else:                                           # what the wrapper really requests: size = port width (up to 32)
             count = rnd.randrange(9, 33)
             value = gen_value(rnd, 8)
@@ -641,7 +653,7 @@ def expand_resp(k, seed, tier):
             extra = None
         items.append([value, count, idle, extra])
         total += idle + resp_bound(count, G) + 12
-    return dict(part='response', items=items, mode=mode, maxgap=G, hold=holdmode, ready_bits=ready_bits(mode, G, rnd, total))
+    return dict(part='response', items=items, mode=mode, maxgap=G, hold=holdmode, vin_width=vin_width, ready_bits=ready_bits(mode, G, rnd, total))
 
 
 def run_resp(run, case, agg):
@@ -662,6 +674,7 @@ def run_resp(run, case, agg):
     agg['restarts'] += len(tr['restarts'])
     for item in case['items']:
         value, count, idle = item[:3]
+        agg['vin_widths'][str(case.get('vin_width', 32))] = agg['vin_widths'].get(str(case.get('vin_width', 32)), 0) + 1
         hname = item[3][0] if len(item) > 3 and item[3] else 'held'
         agg['holds'][hname] = agg['holds'].get(hname, 0) + 1
         run.nt(hash(('resp', value, count, case['mode'], case['maxgap'], hname)))
@@ -670,9 +683,10 @@ def run_resp(run, case, agg):
     for f in findings[:1]:
         it = case['items'][f['index']]
         value, count, idle = it[:3]
+        value = _int(value)
         key = 'c20_response_%s' % f['kind']
         fields = dict(part='response', clause=f['clause'], kind=f['kind'], relation=f['relation'],
-                      count_class='1-8' if count <= 8 else '9-32', value_fits=value < (1 << (4 * count)), ready_mode=case['mode'],
+                      count_class='1-8' if count <= 8 else '9-32', vin_width=case.get('vin_width', 32), value_fits=value < (1 << (4 * count)), ready_mode=case['mode'],
                       input_hold=it[3][0] if len(it) > 3 and it[3] else 'held')
         run.violation(key, fields, _resp_case(case, f['index'] + 1), expected=f['expected'], observed=f['observed'],
                       what='ready=%s inputs=%s: %s' % (case['mode'], it[3][0] if len(it) > 3 and it[3] else 'held', f['what']))
@@ -686,6 +700,221 @@ def _resp_case(case, nitems):
     c['ready_rle'] = rle(case['ready_bits'])
     del c['ready_bits']
     return c
+
+
+# --------------------------------------------------------------------------------------------- decoder + encoder wired as createHILUART does
+
+SYS_IN_W = [16, 8]            # DUT inputs
+SYS_OUT_W = [16, 16, 8]       # DUT outputs: counter of clk_pulse, counter + in0, in1
+
+
+def build_system(size_mode):
+    """The wiring of createHILUART between the two UART blocks, block for block (index registers, decoders, delayed
+    set_index_out, input registers, output capture registers, size constants, the two muxes, padding for the unused decoder
+    outputs), around a small DUT whose outputs change with K and I commands.  createHILUART itself cannot be simulated: it
+    replaces the DUT by a black-box placeholder and needs an FPGA platform object.  size_mode 'bits' feeds CMDResponse.size
+    the port width exactly as the wrapper does, 'digits' feeds ceil(width/4)."""
+    import math
+    import py4hw
+    from py4hw.emulation.HILWrapperUART import CMDRequest, CMDResponse
+    hw = py4hw.HWSystem()
+    with muted():
+        hlp = py4hw.LogicHelper(hw)
+        ready_req, valid_req, c_req = hw.wire('ready_req'), hw.wire('valid_req'), hw.wire('c_req', 8)
+        ser_ready, ser_valid, ser_v = hw.wire('ser_ready'), hw.wire('ser_valid'), hw.wire('ser_v', 8)
+        num_ins, num_outs = len(SYS_IN_W), len(SYS_OUT_W)
+        index_in_w = int(math.ceil(math.log2(num_ins)))
+        num_ins_up = 1 << index_in_w
+        index_out_w = int(math.ceil(math.log2(num_outs)))
+        num_outs_up = 1 << index_out_w
+        ena_in_list = hw.wires('ena_in', num_ins_up, 1)
+        ena_out_list = hw.wires('ena_out', num_outs_up, 1)
+        index_in, index_in_r = hw.wire('index_in', index_in_w), hw.wire('index_in_r', index_in_w)
+        v_in = hw.wire('v_in', 32)
+        index_out, index_out_r = hw.wire('index_out', index_out_w), hw.wire('index_out_r', index_out_w)
+        set_index_in, set_v_in, set_index_out = hw.wire('set_index_in'), hw.wire('set_v_in'), hw.wire('set_index_out')
+        set_index_out_r, clk_pulse, start_resp = hw.wire('set_index_out_r'), hw.wire('clk_pulse'), hw.wire('start_resp')
+        py4hw.Reg(hw, 'index_in_r', d=index_in, enable=set_index_in, q=index_in_r)
+        py4hw.Reg(hw, 'index_out_r', d=index_out, enable=set_index_out, q=index_out_r)
+        py4hw.Reg(hw, 'set_index_out_r', d=set_index_out, q=set_index_out_r)
+        py4hw.Decoder(hw, 'decode_ena_in', index_in_r, ena_in_list)
+        py4hw.Decoder(hw, 'decode_ena_out', index_out_r, ena_out_list)
+        ins = []
+        for i, iw in enumerate(SYS_IN_W):
+            w = hw.wire('in%d' % i, iw)
+            ins.append(w)
+            py4hw.Reg(hw, 'in%d' % i, d=v_in, q=w, enable=hlp.hw_and2(ena_in_list[i], set_v_in))
+        # the DUT
+        outs = [hw.wire('out%d' % i, ow) for i, ow in enumerate(SYS_OUT_W)]
+        py4hw.Counter(hw, 'dut_count', reset=hlp.hw_constant(1, 0), inc=clk_pulse, q=outs[0])
+        py4hw.Add(hw, 'dut_sum', outs[0], ins[0], outs[1])
+        py4hw.Buf(hw, 'dut_copy', ins[1], outs[2])
+        resp_v, resp_size = hw.wire('resp_v', 32), hw.wire('resp_size', 8)
+        reg_out = hw.wires('reg_out', num_outs_up, 32)
+        size_out = hw.wires('size_out', num_outs_up, 8)
+        for i in range(num_outs_up):
+            if i < num_outs:
+                ow = SYS_OUT_W[i]
+                py4hw.Reg(hw, 'out%d' % i, d=outs[i], q=reg_out[i], enable=hlp.hw_and2(ena_out_list[i], set_index_out_r))
+                py4hw.Constant(hw, 'out_size%d' % i, ow if size_mode == 'bits' else (ow + 3) // 4, size_out[i])
+            else:
+                py4hw.Constant(hw, 'out_%d' % i, 0, reg_out[i])
+                py4hw.Constant(hw, 'out_size%d' % i, 0, size_out[i])
+        py4hw.Mux(hw, 'resp_v', index_out_r, reg_out, resp_v)
+        py4hw.Mux(hw, 'resp_size', index_out_r, size_out, resp_size)
+        CMDRequest(hw, 'cmd_req', ready_req, valid_req, c_req, index_in, v_in, index_out, set_index_in, set_v_in, set_index_out,
+                   clk_pulse, start_resp)
+        CMDResponse(hw, 'cmd_resp', resp_v, resp_size, start_resp, ser_ready, ser_valid, ser_v)
+        sim = hw.getSimulator()
+    return hw, sim, dict(ready=ready_req, valid=valid_req, c=c_req, r_ready=ser_ready, r_valid=ser_valid, r_v=ser_v)
+
+
+def sys_digits(i, size_mode):
+    return SYS_OUT_W[i] if size_mode == 'bits' else (SYS_OUT_W[i] + 3) // 4
+
+
+def sys_reference(ops, size_mode):
+    """host-side model: what every 'O' has to be answered with, and what the capture register held from the previous 'O' of
+    the same output (classifier only)."""
+    count, ins = 0, [0] * len(SYS_IN_W)
+    exp, stale = [], []
+    last = {}
+    for op in ops:
+        if op[0] == 'K':
+            count = (count + op[1]) & 0xFFFF
+        elif op[0] == 'I':
+            ins[op[1]] = op[2] & ((1 << SYS_IN_W[op[1]]) - 1)
+        else:
+            i = op[1]
+            val = [count, (count + ins[0]) & 0xFFFF, ins[1]][i]
+            exp.append('=' + '%0*X' % (sys_digits(i, size_mode), val) + '!')
+            stale.append('=' + '%0*X' % (sys_digits(i, size_mode), last.get(i, 0)) + '!')
+            last[i] = val
+    return exp, stale
+
+
+def sys_text(op, nl):
+    if op[0] == 'K':
+        return 'K%X;' % op[1] + nl
+    if op[0] == 'I':
+        return 'I%X=' % op[1] + '%0*X!' % (op[3], op[2]) + nl
+    return 'O%X?' % op[1] + nl
+
+
+def simulate_system(case):
+    """plays a host session: characters over ready/valid with gaps; after an 'O<n>?' the host waits for the '!' of the answer
+    before it sends anything else (what DUTProxy does).  The consumer's ready is an oblivious schedule."""
+    hw, sim, s = build_system(case['size_mode'])
+    ops, gaps, rb = case['ops'], case['gaps'], case['ready_bits']
+    nl = '\n' if case.get('newline') else ''
+    got = []              # responses, split at '!'
+    cur = ''
+    t = 0
+    gi = 0
+    problem = None
+    maxd = max(sys_digits(i, case['size_mode']) for i in range(len(SYS_OUT_W)))
+    wait_bound = resp_bound(maxd, case['maxgap']) + 40
+
+    def step(valid, ch):
+        nonlocal t, cur
+        s['valid'].put(valid)
+        s['c'].put(ch)
+        s['r_ready'].put(rb[t % len(rb)])
+        took = s['valid'].get() & s['ready'].get()
+        if s['r_valid'].get() & s['r_ready'].get():
+            cur += chr(s['r_v'].get()) if 32 <= s['r_v'].get() < 127 else '?'
+            if cur.endswith('!'):
+                got.append(cur)
+                cur = ''
+        sim.clk(1)
+        t += 1
+        return took
+
+    with muted():
+        for op in ops:
+            for ch in sys_text(op, nl):
+                for _ in range(gaps[gi % len(gaps)]):
+                    step(0, garbage(t))
+                gi += 1
+                n = 0
+                while not step(1, ord(ch)):
+                    n += 1
+                    if n > REQ_STALL:
+                        problem = 'character %r of %r not consumed within %d cycles' % (ch, sys_text(op, ''), REQ_STALL)
+                        break
+                if problem:
+                    break
+            if problem:
+                break
+            if op[0] == 'O':
+                have = len(got)
+                n = 0
+                while len(got) == have and n < wait_bound:
+                    step(0, garbage(t))
+                    n += 1
+        for _ in range(12):
+            step(0, garbage(t))
+    if cur:
+        got.append(cur)
+    return dict(responses=got, cycles=t, problem=problem)
+
+
+def expand_system(k, seed):
+    rnd = rng(seed, 'C20', 'sys', k)
+    ops = []
+    for _ in range(14):
+        r = rnd.random()
+        if r < 0.25:
+            ops.append(['K', rnd.choice([0, 1, 1, 2, 3, 5, 8, 17])])
+        elif r < 0.5:
+            i = rnd.randrange(len(SYS_IN_W))
+            nd = rnd.choice([1, 2, 4, 4, 8])
+            ops.append(['I', i, rnd.randrange(16 ** nd), nd])
+        else:
+            ops.append(['O', rnd.randrange(len(SYS_OUT_W))])
+    mode = ['always', 'alternate', 'rand', 'worst'][k % 4]
+    G = [0, 1, 2, 3][k % 4]
+    return dict(part='system', ops=ops, size_mode=['bits', 'digits'][(k // 2) % 2], newline=(k // 4) % 2,
+                gaps=[rnd.choice([0, 0, 1, 3, rnd.randrange(0, 9)]) for _ in range(31)], mode=mode, maxgap=G,
+                ready_bits=ready_bits(mode, G, rnd, 257))
+
+
+def run_system(run, case, agg):
+    try:
+        tr = simulate_system(case)
+    except Exception as e:
+        run.violation('c20_system_raises', dict(part='system', clause='raises'), case, observed=repr(e)[:300],
+                      what='the decoder/encoder composition raises %r' % (e,))
+        return
+    exp, stale = sys_reference(case['ops'], case['size_mode'])
+    got = tr['responses']
+    agg['sys_sessions'] += 1
+    agg['sys_cycles'] += tr['cycles']
+    run.count('system_cycles', tr['cycles'])
+    n = 0
+    for j, e in enumerate(exp):
+        if j < len(got) and got[j] == e:
+            n += 1
+            run.nt(hash(('sys', e, case['size_mode'], case['mode'])))
+            if e != stale[j]:
+                agg['sys_changed'] += 1
+        else:
+            break
+    run.ev(n)
+    agg['sys_responses'] += n
+    run.count('system_responses_judged', n)
+    if got != exp:
+        j = next((i for i in range(min(len(got), len(exp))) if got[i] != exp[i]), min(len(got), len(exp)))
+        g = got[j] if j < len(got) else None
+        e = exp[j] if j < len(exp) else None
+        rel = ('answers_previous_capture' if e is not None and g == stale[j] and g != e else 'no_answer' if g is None else
+               'unrequested_answer' if e is None else 'other')
+        otext = [sys_text(o, '') for o in case['ops']]
+        run.violation('c20_system_wrong_response', dict(part='system', clause='end_to_end', relation=rel, size_mode=case['size_mode']),
+                      case, expected=e, observed=g,
+                      what='session %s (consumer %s): answer %d is %r, the selected output holds %r%s' % (
+                          ''.join(otext)[:80], case['mode'], j, g, e, '; ' + tr['problem'] if tr['problem'] else ''))
+    return tr
 
 
 # --------------------------------------------------------------------------------------------- driver
@@ -703,6 +932,10 @@ def run_check(run, tier, seed, shard):
                'value / sample size" there): input-hold classes held (stable for the whole response), pulse_only (garbage from the next '
                'cycle on) and restart (a second start_resp with other inputs while the response is in progress must not alter it; '
                'whether that second request is served afterwards is not judged -- the unchanged block ignores it)')
+    run.assume('system class: decoder and encoder wired block for block as createHILUART wires them (createHILUART itself replaces the '
+               'DUT by a black box and cannot be simulated), around a DUT whose outputs change between O commands; judged end to end: '
+               'every O<n>? is answered with the value output n has at that moment, in the number of digits the size constant '
+               'requests; the host waits for the "!" of an answer before it sends on, as the library\'s DUTProxy does')
     run.assume('the character port of the decoder is driven three ways: from Python between clock edges, and by a clocked ready/valid '
                'source block instantiated before resp. after the decoder (the simulator states that clocked blocks need no order); '
                'both sides of the port must agree on which characters were transferred')
@@ -710,8 +943,9 @@ def run_check(run, tier, seed, shard):
                'and the "!" must be taken within (count+2)*2*(G+1)+4 cycles of start_resp (the block looks at ready twice per '
                'character, so the design-time bound (count+2)*(G+3) is too tight for G >= 2 and is not used)')
     nreq, nresp = (8000, 10000) if tier == 'quick' else (300000, 400000)
+    nsys = 400 if tier == 'quick' else 16000
     deadline = time.time() + (420 if tier == 'quick' else 2400)
-    agg = dict(digits={}, pulses={}, pulse_len={}, kinds={}, producers={}, holds={}, restarts=0, chars=0, valid_low_cycles=0, stalls=[], counts={}, resp_modes={},
+    agg = dict(digits={}, pulses={}, pulse_len={}, kinds={}, producers={}, holds={}, restarts=0, vin_widths={}, sys_sessions=0, sys_responses=0, sys_changed=0, sys_cycles=0, chars=0, valid_low_cycles=0, stalls=[], counts={}, resp_modes={},
                resp_max_frac_of_bound=0.0, ready_low_cycles=0)
     skipped = 0
     for k in shard_slice(range(nreq), shard):
@@ -740,6 +974,17 @@ def run_check(run, tier, seed, shard):
             run.sample(dict(part='response', ready_mode=case['mode'], max_not_ready_run=case['maxgap'], first_item=dict(value=hex(v), digits=c,
                             expected=expected_chars(v, c)), responses_judged=obs['responses_judged'], handshakes=obs['handshakes'],
                             cycles=tr['cycles']))
+    for k in shard_slice(range(nsys), shard):
+        if time.time() > deadline:
+            skipped += 1
+            continue
+        if run.too_many:
+            break
+        case = expand_system(k, seed)
+        tr = run_system(run, case, agg)
+        if tr is not None and k % 53 == 0 and len(run.samples) < 10:
+            run.sample(dict(part='system', session=''.join(sys_text(o, '') for o in case['ops'])[:90], size_mode=case['size_mode'],
+                            consumer=case['mode'], answers=tr['responses'][:4], cycles=tr['cycles']))
     if skipped:
         run.inconclusive.append('watchdog: %d cases skipped' % skipped)
     if agg['stalls']:
@@ -753,6 +998,10 @@ def run_check(run, tier, seed, shard):
     run.extra['request_commands_by_producer_and_gap'] = agg['producers']
     run.extra['response_by_input_hold'] = agg['holds']
     run.extra['response_restart_pulses'] = agg['restarts']
+    run.extra['response_by_vin_width'] = agg['vin_widths']
+    run.extra['system_sessions'] = agg['sys_sessions']
+    run.extra['system_responses_judged'] = agg['sys_responses']
+    run.extra['system_responses_differing_from_previous_capture'] = agg['sys_changed']
     run.extra['request_valid_low_cycles'] = agg['valid_low_cycles']
     run.extra['response_digit_count_hist'] = agg['counts']
     run.extra['response_by_ready_mode'] = agg['resp_modes']
@@ -770,12 +1019,21 @@ def post_merge(run, tier, seed):
     if not run.counters.get('commands_judged') or not run.counters.get('responses_judged') or not run.counters.get('response_handshakes'):
         run.inconclusive.append('a deciding monitor saw no event: commands=%s responses=%s handshakes=%s' % (
             run.counters.get('commands_judged'), run.counters.get('responses_judged'), run.counters.get('response_handshakes')))
+    if not run.extra.get('system_responses_differing_from_previous_capture'):
+        run.inconclusive.append('no end-to-end answer was observed whose value differed from the previous capture of that output')
     if not run.extra.get('request_valid_low_cycles') or not run.extra.get('response_ready_low_cycles'):
         run.inconclusive.append('the environments never stalled (no valid gap / no not-ready cycle)')
 
 
 def replay(run, case):
     c = case['case']
+    if c.get('part') == 'system':
+        tr = simulate_system(c)
+        exp, _ = sys_reference(c['ops'], c['size_mode'])
+        print('replay C20 system session %r: answers %s expected %s' % (''.join(sys_text(o, '') for o in c['ops']), tr['responses'], exp))
+        if tr['responses'] != exp:
+            print('VIOLATION property=C20 replay=replayed')
+        return 1 if tr['responses'] != exp else 0
     if c.get('part') == 'request':
         tr = simulate_req(c)
         findings, obs = judge_req(tr, c)
